@@ -48,6 +48,10 @@ RULE = (
     "parameters from the case RNG); n in {2..30,60,120} (all n in thorough, a seed-rotated subset in quick). Extra families: "
     "T then Inverse(T) (chain), user grids on a sub-interval / without domain / unsorted (subdomain), Gauss-Legendre through "
     "LinearFinite with the Legendre Gram oracle, integral of exp(-beta r), AtomGrid.from_preset default radial grids (incidental). "
+    "Further input classes: ONE transform object applied to ~13 grids in a row (same rule class and size with different rule parameters, "
+    "hand-made grids, the two halves of one grid, the same grid twice; family 'sequence'), hand-made OneDGrids whose nodes are stored as "
+    "int64/int32 (midpoint/trapezoid/Simpson on {-1,0,1}, 0..n-1 on the half line) or float32 ('dtype-grid'), C03's boundary parameter "
+    "values x numeric spellings ('boundary'). "
     "Admissibility: a node that sits ON an end of the transform's domain where the map is singular (Becke/Knowles/Handy x=1, "
     "MultiExp x=-1, Inverse(T) at r=rmin when T'(-1)=0) is not an admissible pairing and is skipped (counted); Hyperbolic gets "
     "b*max(x,n-1)<1. A case is non-trivial when the weight identity was decided on at least one node."
@@ -302,7 +306,7 @@ def transform_and_check(ctx, tf, g, subject_hint):
         rhs = np.sum(gv_ref[d] * absJ[d] * w[d])
         mag = float(np.sum(np.abs(gv_ref[d]) * absJ[d] * np.abs(w[d])))
         # tolerance: Jacobian tolerance of the monitor + change of g between float64 and long-double images (Lipschitz, <= sum beta+omega)
-        tolJ = float(np.sum(np.abs(gv_ref[d]) * (mon.REL_W * absJ[d] + 100 * o["Jerr"][d]) * np.abs(w[d])))
+        tolJ = float(np.sum(np.abs(gv_ref[d]) * o["tol"][d] * np.abs(w[d])))  # the monitor's per-node Jacobian tolerance (incl. float32 slack)
         dr = np.abs(np.asarray(new.points, dtype=nd.LD)[d] - o["r_ld"][d])
         tolg = float(np.sum(10.0 * dr * absJ[d] * np.abs(w[d])))
         tol = tolJ + tolg + 1e-12 * mag + 1e-300
